@@ -1,10 +1,8 @@
 package runh
 
 import (
-	"encoding/json"
 	"os"
 	"path/filepath"
-	"time"
 
 	"github.com/FollowTheProcess/spok/zzverif/stubs"
 	"github.com/FollowTheProcess/spok/zzverif/sym"
@@ -113,53 +111,12 @@ func restoreCache(c cacheSnap) {
 	}
 }
 
-func oldTime() time.Time { return time.Date(2001, 1, 1, 0, 0, 0, 0, time.UTC) }
 
-// ---- native emulation of a kill during a write of the cache file -----------------------------------
-
-// nativeCacheBefore remembers the cache file before an invocation and marks it with an old
-// modification time so that a rewrite can be detected afterwards.
-func nativeCacheBefore() (content string, existed bool) {
-	data, err := os.ReadFile(cachePath())
-	if err != nil {
-		return "", false
+// writeRaw puts content into an existing file without passing through any write hook.
+func writeRaw(abs, content string) {
+	if sym.Symbolic() {
+		vfs.Files[abs].Content = content
+		return
 	}
-	os.Chtimes(cachePath(), oldTime(), oldTime())
-	return string(data), true
+	os.WriteFile(abs, []byte(content), 0o644)
 }
-
-func nativeCacheRewritten() bool {
-	st, err := os.Stat(cachePath())
-	return err == nil && !st.ModTime().Equal(oldTime())
-}
-
-// tornCache leaves on disk what a kill at the given stage of a write of data leaves:
-// 0 nothing written (old content / no file), 1 empty file, 2 a proper prefix, 3 complete.
-func tornCache(stage int, old string, existed bool, data string) {
-	switch stage {
-	case 0:
-		if existed {
-			os.WriteFile(cachePath(), []byte(old), 0o644)
-		} else {
-			os.Remove(cachePath())
-		}
-	case 1:
-		os.WriteFile(cachePath(), nil, 0o644)
-	case 2:
-		os.WriteFile(cachePath(), []byte(data[:len(data)/2]), 0o644)
-	case 3:
-		os.WriteFile(cachePath(), []byte(data), 0o644)
-	}
-}
-
-// placeholderJSON is what cache.Init writes for the given task names.
-func placeholderJSON(names []string) string {
-	m := map[string]string{}
-	for _, n := range names {
-		m[n] = ""
-	}
-	data, _ := json.Marshal(m)
-	return string(data)
-}
-
-func nativeMkdirCache() { os.MkdirAll(filepath.Join(root, ".spok"), 0o755) }
